@@ -10,7 +10,7 @@
    order [rev new]. *)
 From Coq Require Import List NArith Bool Arith.
 From AMV Require Import Base.ListSet Model.Schema Model.Resolver Model.Machine
-  Spec.C01 Spec.C05.
+  Spec.C01 Spec.C05 Spec.C07 Spec.C05b Spec.C05d.
 From AMV Require Proofs.C05C07Proofs.
 Import ListNotations.
 
@@ -242,3 +242,164 @@ Theorem order_respects_after_adjacent_partial_nonvacuous :
   C05C07Proofs.aft_after sc 0 1 = true /\ C05C07Proofs.aft_after sc 1 0 = false.
 Proof. exact C05C07Proofs.order_respects_after_adjacent_partial_nonvacuous. Qed.
 Print Assumptions order_respects_after_adjacent_partial_nonvacuous.
+
+(* ------------------------------------------------------------------ *)
+(* Spec/C05b.v: every bound negotiation handler of an applied          *)
+(* transition is consulted exactly once per binding (code 59)          *)
+(* ------------------------------------------------------------------ *)
+
+(* (1) non-auto mutations *)
+Theorem consulted_step : forall s mu s' r rec,
+  C05C07Proofs.good s -> NoDup (active s) -> mu_auto mu = false ->
+  run_tx s mu = (s', r) -> txs s' = rec :: txs s ->
+  tx_accepted rec && negb (tx_check rec) = true ->
+  consulted_codes (sc s) (topo s) (bindings s) (rev (hlog s')) rec = [].
+Proof. exact C05C07Proofs.consulted_step_nonauto_lemma. Qed.
+Print Assumptions consulted_step.
+
+(* the counting statement behind it (auto and non-auto): every key of
+   expected_negotiation is logged exactly once for each binding defining it,
+   never for the others *)
+Theorem consulted_expected_step : forall s mu s' r rec new,
+  C05C07Proofs.good s -> NoDup (active s) -> (mu_auto mu = true -> mu_type mu = MAdd) ->
+  run_tx s mu = (s', r) -> hlog s' = new ++ hlog s -> txs s' = rec :: txs s ->
+  tx_accepted rec && negb (tx_check rec) = true ->
+  forall k, In k (expected_negotiation (sc s) (topo s) (rev new) rec) ->
+  forall i, count_key (rev new) k i
+            = if existsb (hkey_eqb k) (nth i (bindings s) []) then 1 else 0.
+Proof. exact C05C07Proofs.consulted_expected_step. Qed.
+Print Assumptions consulted_expected_step.
+
+(* (2) auto mutations (always MAdd): the clause of consulted_codes for auto
+   records holds as it stands in the model - every called Auto state of the
+   first resolution that was not rejected by its own handlers had its Enter
+   and state-state handlers consulted once per binding *)
+Theorem consulted_step_auto : forall s mu s' r rec,
+  C05C07Proofs.good s -> NoDup (active s) -> mu_auto mu = true -> mu_type mu = MAdd ->
+  run_tx s mu = (s', r) -> txs s' = rec :: txs s ->
+  consulted_codes (sc s) (topo s) (bindings s) (rev (hlog s')) rec = [].
+Proof. exact C05C07Proofs.consulted_step_auto_lemma. Qed.
+Print Assumptions consulted_step_auto.
+
+(* on whole runs (any fuel): code 59 never fires, for auto records either *)
+Theorem consulted_ok : forall sch tp hl ex bs ql acts cs fuel,
+  C05C07Proofs.fault_free acts ->
+  forall t, In t (tr_txs (run fuel (init_st sch tp hl ex bs ql acts) cs)) ->
+    consulted_codes sch tp bs (tr_hlog (run fuel (init_st sch tp hl ex bs ql acts) cs)) t = [].
+Proof. exact C05C07Proofs.consulted_ok_lemma. Qed.
+Print Assumptions consulted_ok.
+
+Theorem consulted_nonauto_ok : forall sch tp hl ex bs ql acts cs fuel,
+  C05C07Proofs.fault_free acts ->
+  flat_map (consulted_codes sch tp bs (tr_hlog (run fuel (init_st sch tp hl ex bs ql acts) cs)))
+           (filter (fun t => negb (tx_auto t))
+                   (tr_txs (run fuel (init_st sch tp hl ex bs ql acts) cs))) = [].
+Proof. exact C05C07Proofs.consulted_nonauto_ok_lemma. Qed.
+Print Assumptions consulted_nonauto_ok.
+
+Theorem consulted_all_ok : forall sch tp hl ex bs ql acts cs fuel,
+  C05C07Proofs.fault_free acts ->
+  flat_map (consulted_codes sch tp bs (tr_hlog (run fuel (init_st sch tp hl ex bs ql acts) cs)))
+           (tr_txs (run fuel (init_st sch tp hl ex bs ql acts) cs)) = [].
+Proof. exact C05C07Proofs.consulted_all_ok_lemma. Qed.
+Print Assumptions consulted_all_ok.
+
+Theorem consulted_ok_nonvacuous :
+  let bs := [[HExit 0; HEnter 1; HTrans 0 1; HTrans 2 1; HEnter 2]; [HEnter 1; HTrans 0 2]] in
+  let tr := run 100 (init_st C05C07Proofs.ex_sch [] [] 3 bs 1000 [])
+                [C05C07Proofs.ex_add [0]; C05C07Proofs.ex_add [1]] in
+  tr_fuel_ok tr = true /\ map tx_auto (tr_txs tr) = [false; true; false] /\
+  map tx_accepted (tr_txs tr) = [true; true; true] /\
+  map (fun h => (hl_key h, hl_binding h)) (tr_hlog tr)
+    = [(HEnter 2, 0); (HTrans 0 2, 1); (HExit 0, 0); (HEnter 1, 0); (HEnter 1, 1);
+       (HTrans 2 1, 0); (HTrans 0 1, 0); (HTrans 0 2, 1)] /\
+  c05b_codes C05C07Proofs.ex_sch [] bs tr = [].
+Proof. exact C05C07Proofs.consulted_ok_nonvacuous. Qed.
+Print Assumptions consulted_ok_nonvacuous.
+
+(* (3) the known defects of partial auto acceptance.
+   Intended (FALSE): an auto transition only activates states whose bound
+   Enter / state-state handlers were consulted (code 591), and never a called
+   state whose own handler returned false (code 592). *)
+Theorem reresolved_refuted :
+  exists (sch : schema) (order : list nat) (bs : list (list hkey)) (acts : list haction)
+         (cs : list api_call),
+    let tp := topo_sort sch order in
+    let tr := run 100 (init_st sch tp [] 4 bs 1000 acts) cs in
+    C05C07Proofs.fault_free acts /\ tr_fuel_ok tr = true /\ tr_crashed tr = false /\
+    map tx_auto (tr_txs tr) = [false; true] /\ map tx_target (tr_txs tr) = [[3]; [0; 3; 2]] /\
+    map (fun h => (hl_key h, hl_ret h)) (tr_hlog tr) = [(HEnter 1, false)] /\
+    flat_map (reresolved_codes sch tp bs (tr_hlog tr)) (tr_txs tr) = [591%N] /\
+    c05b_codes sch tp bs tr = [591%N].
+Proof. exact C05C07Proofs.reresolved_refuted_lemma. Qed.
+Print Assumptions reresolved_refuted.
+
+Theorem vetoed_active_refuted :
+  exists (sch : schema) (order : list nat) (bs : list (list hkey)) (acts : list haction)
+         (cs : list api_call),
+    let tp := topo_sort sch order in
+    let tr := run 100 (init_st sch tp [] 3 bs 1000 acts) cs in
+    C05C07Proofs.fault_free acts /\ tr_fuel_ok tr = true /\ tr_crashed tr = false /\
+    map tx_auto (tr_txs tr) = [false; true] /\ map tx_target (tr_txs tr) = [[2]; [0; 2; 1]] /\
+    map (fun h => (hl_key h, hl_ret h)) (tr_hlog tr) = [(HEnter 1, false)] /\
+    map co_active (tr_calls tr) = [[0; 2; 1]] /\
+    flat_map (vetoed_active_codes (tr_hlog tr)) (tr_txs tr) = [592%N] /\
+    c05b_codes sch tp bs tr = [592%N].
+Proof. exact C05C07Proofs.vetoed_active_refuted_lemma. Qed.
+Print Assumptions vetoed_active_refuted.
+
+(* ------------------------------------------------------------------ *)
+(* Spec/C05d.v: bindings detached while an event is dispatched         *)
+(* ------------------------------------------------------------------ *)
+
+(* one negotiation event over a snapshot: the bindings of a prefix of the
+   snapshot are called, each once, in order; the whole snapshot unless a veto
+   stops it (then the vetoing binding is the last one called); what stays
+   bound is what none of the called bindings detached *)
+Theorem neg_dispatch_spec : forall h d veto snap bound cs b v,
+  neg_dispatch h d veto snap bound = (cs, b, v) ->
+  exists pre post, snap = pre ++ post /\ cs = map (fun i => (i, h)) pre /\
+    b = C05C07Proofs.still_bound d pre bound /\
+    (v = false -> post = [] /\ forallb (fun i => negb (mem i veto)) pre = true) /\
+    (v = true -> exists pre' i, pre = pre' ++ [i] /\ mem i veto = true /\
+                  forallb (fun i => negb (mem i veto)) pre' = true).
+Proof. exact C05C07Proofs.neg_dispatch_spec. Qed.
+Print Assumptions neg_dispatch_spec.
+
+Theorem detach_snapshot_semantics : forall (k : dcase) cs r1 r2,
+  expected_calls k = (cs, r1, r2) ->
+  exists pre post,
+    seq 0 (d_k k) = pre ++ post /\
+    cs = map (fun i => (i, 0)) pre
+         ++ (if r1 then map (fun i => (i, 1))
+                            (C05C07Proofs.still_bound (d_detach k) pre (seq 0 (d_k k))) else [])
+         ++ map (fun i => (i, 2)) (C05C07Proofs.still_bound (d_detach k) pre (seq 0 (d_k k)))
+         ++ map (fun i => (i, 3)) (C05C07Proofs.still_bound (d_detach k) pre (seq 0 (d_k k))) /\
+    r2 = true /\
+    (r1 = true -> post = [] /\ forallb (fun i => negb (mem i (d_veto k))) pre = true) /\
+    (r1 = false -> exists pre' i, pre = pre' ++ [i] /\ mem i (d_veto k) = true /\
+                     forallb (fun i => negb (mem i (d_veto k))) pre' = true).
+Proof. exact C05C07Proofs.detach_snapshot_semantics_lemma. Qed.
+Print Assumptions detach_snapshot_semantics.
+
+(* at most once per (binding, handler); exactly once for the negotiation event
+   unless vetoed; a binding detached by a called handler sees no later event *)
+Theorem detach_calls_properties : forall (k : dcase) cs r1 r2,
+  expected_calls k = (cs, r1, r2) ->
+  NoDup cs /\
+  (r1 = true -> forall i, i < d_k k -> In (i, 0) cs) /\
+  (forall i j h, In (i, 0) cs -> In (i, j) (d_detach k) -> h <> 0 -> ~ In (j, h) cs) /\
+  (forall i h, In (i, h) cs -> i < d_k k /\ h <= 3).
+Proof. exact C05C07Proofs.detach_calls_properties_lemma. Qed.
+Print Assumptions detach_calls_properties.
+
+Theorem detach_snapshot_semantics_nonvacuous :
+  let k := {| d_k := 4; d_detach := [(0, 2); (1, 3); (2, 1)]; d_veto := []; o_dcalls := [];
+              o_res1 := true; o_res2 := true |} in
+  expected_calls k
+  = ([(0, 0); (1, 0); (2, 0); (3, 0); (0, 1); (0, 2); (0, 3)], true, true) /\
+  expected_calls {| d_k := 3; d_detach := [(0, 2)]; d_veto := [1]; o_dcalls := [];
+                    o_res1 := true; o_res2 := true |}
+  = ([(0, 0); (1, 0); (0, 2); (1, 2); (0, 3); (1, 3)], false, true).
+Proof. exact C05C07Proofs.detach_snapshot_semantics_nonvacuous. Qed.
+Print Assumptions detach_snapshot_semantics_nonvacuous.
